@@ -236,7 +236,10 @@ PLANS["C09"] = dict(
         dict(name="oci", gen=c09_gen("oci"), drive=dict(driver="policy-valid"),
              validate=dict(module="Trace_TrustPolicy", cfg=trace_cfg(consts=['Mode = "valid"']))),
         dict(name="blob", gen=c09_gen("blob"), drive=dict(driver="policy-valid"),
-             validate=dict(module="Trace_TrustPolicy", cfg=trace_cfg(consts=['Mode = "valid"']))),
+             validate=dict(module="Trace_TrustPolicy", cfg=trace_cfg(consts=['Mode = "valid"']))),        # which DOCUMENT is obeyed comes before which statement: the policy files of a configuration directory (file kinds, the legacy
+        # fallback only for a missing file, nothing remembered about a file between two loads) - PolicyFiles.tla
+        dict(name="policy-files", gen=dict(module="MC_PolicyFiles", cfg=mc_cfg(["Inv_RegularOnly", "Inv_ValidOnly", "Inv_Fallback", "Inv_Trust", "Inv_Emit"]), select=take_all),
+             drive=dict(driver="policyfiles"), validate=dict(module="Trace_PolicyFiles", cfg=trace_cfg())),
     ],
 )
 
@@ -269,7 +272,10 @@ PLANS["C08"] = dict(
         dict(name="oci", gen=c08_gen("oci"), drive=dict(driver="policy-select"),
              validate=dict(module="Trace_TrustPolicy", cfg=trace_cfg(consts=['Mode = "select"']))),
         dict(name="blob", gen=c08_gen("blob"), drive=dict(driver="policy-select"),
-             validate=dict(module="Trace_TrustPolicy", cfg=trace_cfg(consts=['Mode = "select"']))),
+             validate=dict(module="Trace_TrustPolicy", cfg=trace_cfg(consts=['Mode = "select"']))),        # which DOCUMENT is obeyed comes before which statement: the policy files of a configuration directory (file kinds, the legacy
+        # fallback only for a missing file, nothing remembered about a file between two loads) - PolicyFiles.tla
+        dict(name="policy-files", gen=dict(module="MC_PolicyFiles", cfg=mc_cfg(["Inv_RegularOnly", "Inv_ValidOnly", "Inv_Fallback", "Inv_Trust", "Inv_Emit"]), select=take_all),
+             drive=dict(driver="policyfiles"), validate=dict(module="Trace_PolicyFiles", cfg=trace_cfg())),
     ],
 )
 
